@@ -568,7 +568,7 @@ def random_shape(rng: random.Random) -> dict[str, Any]:
 # write leg
 # ---------------------------------------------------------------------------
 
-ARENA = 8 << 20
+ARENA = 2 << 20
 
 
 class Arena:
@@ -668,7 +668,9 @@ def judge_write(chk: Check, arena: Arena, batch: Any, spec: dict[str, Any], scen
         chk.hit("write_landed_in_prepared_hole")
     lo = off - M.HEADER_BYTES
     hi = lo + length
-    outside_same = before[:lo] == after[:lo] and before[hi:] == after[hi:]
+    masked = bytearray(after)
+    masked[lo:hi] = before[lo:hi]
+    outside_same = masked == before
     overrun = written > length
     clobbered_live = []
     if not outside_same:
